@@ -8,5 +8,5 @@ def check(res):
     genprop.run(res, "C01", PROPFILE, corpus)
 
 
-PROPFILE = None
+PROPFILE = "theories/Properties/C01.v"
 replay = genprop.replay
